@@ -80,7 +80,9 @@ structure Input where
   blob : Stmt
   manager : Bool          -- a plugin manager is configured
   sig : Sig
-  fuzz : Bool             -- malformed-input case (sampled, not modelled)
+  fuzz : Bool             -- malformed-input / configuration-sweep case (sampled, not modelled)
+  label : String          -- what the sampled case is (configuration, stream); ignored by the model
+  data : String           -- hex of the bytes offered to the entry point (sampled cases); ignored by the model
   deriving Repr, FromJson, ToJson
 
 structure Outcome where
